@@ -242,3 +242,11 @@ reg("C34", "enum", "A design with eight log records (top level / under m.If / in
     "and end the run with a failure.",
     "bounded-exhaustive enumeration of stimulus histories, each executed on the real simulator processes and compared with a reference",
     note="Trusts Amaranth's simulator; one fixed design with eight records; 2-bit fields.")
+
+reg("C33", "enum", "A design with five emission sites (top level, under m.If, inside a transaction body, top_emit, default trigger; "
+    "unsigned/bool/signed/IntEnum dynamic fields, int/str/Enum statics) simulated with the real capture process for every input "
+    "history (length 1 full, length 2, 3 thorough); raw records, decoded events, save/load, EventLogWriter/Reader and "
+    "GeneratedEvLogSampler with and without the packed trigger vector must equal the reference; EventConsumer.run dispatches stably in "
+    "cycle order.",
+    "bounded-exhaustive enumeration of stimulus histories, each executed on the real simulator processes and compared with a reference",
+    note="Trusts Amaranth's simulator; the Yosys-produced Verilog name map is not exercised (sampler handles are synthesised).")
